@@ -542,6 +542,10 @@ func findParamLen(s string, segment *routeSegment) int {
 	}
 
 	if segment.Length != 0 && len(s) >= segment.Length {
+		// a named parameter never takes a slash
+		if strings.IndexByte(s[:segment.Length], slashDelimiter) != -1 {
+			return 0
+		}
 		return segment.Length
 	} else if segment.IsGreedy {
 		// Search the parameters until the next constant part
@@ -554,6 +558,10 @@ func findParamLen(s string, segment *routeSegment) int {
 
 	if len(segment.ComparePart) == 1 {
 		if constPosition := strings.IndexByte(s, segment.ComparePart[0]); constPosition != -1 {
+			// same rule as for longer compare parts: a named parameter never spans a slash
+			if !segment.IsGreedy && strings.IndexByte(s[:constPosition], slashDelimiter) != -1 {
+				return 0
+			}
 			return constPosition
 		}
 	} else if constPosition := strings.Index(s, segment.ComparePart); constPosition != -1 {
